@@ -1,4 +1,5 @@
 import WhVerif.Model.C14
+import WhVerif.Model.C14Text
 /-! Specification-level vocabulary of C14 (core Lean only): the option table of the property text. -/
 namespace WhVerif.C14
 
@@ -22,6 +23,52 @@ def allRequested (o : Opts) : Prop := ∀ k, k ≤ o.ploidy → isRequested o k 
 
 /-- every haplotype number of the table is one of 1..ploidy -/
 def Table.WF (o : Opts) (t : Table) : Prop := ∀ p ∈ t.assign, 1 ≤ p.2 ∧ p.2 ≤ o.ploidy
+
+
+/-! ### specification of the list (independent of the table the code builds) -/
+
+/-- number of tagged lines of block `(chromosome, phase set)` -/
+def blockSize (tagged : List Line) (b : String × String) : Nat :=
+  tagged.countP (fun l => l.chrom == b.1 && l.ps == b.2)
+
+/-- `b` is a largest block of its chromosome: it has a tagged line and no phase set of the same chromosome has more -/
+def IsLargest (tagged : List Line) (b : String × String) : Prop :=
+  0 < blockSize tagged b ∧ ∀ ps, blockSize tagged (b.1, ps) ≤ blockSize tagged b
+
+/-- **the entry the list assigns to a read name** (for lists that name a read at most once): `none` = not listed,
+`some 0` = listed as `none` (or, with `--only-largest-block`, tagged outside the largest block of its chromosome),
+`some h` = tagged `H`h -/
+def entryOf (o : Opts) (lines : List Line) (name : String) : Option Nat :=
+  match lines.find? (fun l => l.name == name) with
+  | none => none
+  | some l =>
+    if l.hap != 0 && (!o.onlyLargest || (selectedBlocks (taggedOf lines)).contains (l.chrom, l.ps)) then some l.hap
+    else some 0
+
+/-- **the option table on the list itself**: where the property text sends a read -/
+def prescribedByList (o : Opts) (lines : List Line) (r : Read) : List Nat :=
+  let untaggedTarget := if o.addUntagged then List.range (o.ploidy + 1) else [0]
+  let target := match entryOf o lines r.name with
+    | none => if o.discardUnknown then [] else untaggedTarget
+    | some h => if h == 0 then untaggedTarget else [h]
+  target.filter (isRequested o)
+
+/-! ### well-formed list text (the round trip file → rows) -/
+
+def renderLine (cols : List (List Char)) : List Char := List.intercalate ['\t'] cols
+/-- every row on its own line, `\n`-terminated -/
+def renderText (rows : List (List (List Char))) : List Char := rows.flatMap (fun r => renderLine r ++ ['\n'])
+
+/-- a row whose rendering `strip` and `split("\t")` read back unchanged: at least one field, no tab / newline inside a
+field, the line is not empty and neither starts nor ends with white space (so: first and last field non-empty) -/
+structure RowOK (r : List (List Char)) : Prop where
+  ne : r ≠ []
+  nosep : ∀ f ∈ r, ∀ c ∈ f, c ≠ '\t' ∧ c ≠ '\n' ∧ c ≠ '\r'
+  head : ∀ c, (renderLine r).head? = some c → isSpace c = false
+  last : ∀ c, (renderLine r).getLast? = some c → isSpace c = false
+  nonempty : renderLine r ≠ []
+
+def strRow (r : List (List Char)) : List String := r.map String.ofList
 
 /-! fixtures of the witness examples in `Props/C14.lean` -/
 /-- diploid, all three outputs requested -/
